@@ -173,7 +173,7 @@ class Ctx:
             "check": check_name, "signature": sig,
             "detail": short(detail, 2000), "case_repr": short(case, 3000),
             "case_pickle": blob, "seed": self.seed, "shard": self.shard,
-            "tier": self.tier})
+            "tier": self.tier, "hashseed": os.environ.get("PYTHONHASHSEED")})
 
     def run(self, check_name, case):
         """Run a registered check on one case; unexpected exceptions of the
@@ -312,6 +312,8 @@ def write_evidence(prop, tier, seed, m, wall, nshards, assumptions):
                                 for k, v in sorted(m["known_seen"].items())},
         "violation_events": m["n_violation_events"],
         "shards": nshards,
+        "string_hash_seeds": [os.environ.get("VF_HASHSEED") or hashseed_for(seed, s_)
+                              for s_ in range(nshards)],
         "notes": m["notes"],
         "inconclusive": m["inconclusive"],
     }
@@ -339,15 +341,24 @@ def write_replays(prop, m):
     return out
 
 
+def hashseed_for(seed, shard):
+    """PYTHONHASHSEED of a shard: 0 for shard 0 (the historical setting), else derived"""
+    return 0 if shard == 0 else (seed * 7919 + shard * 104729 + 17) % 4294967295 + 1
+
+
 def run_shards(prop, tier, seed, nshards, timeout):
     """Run shards as subprocesses (no multiprocessing.Pool); returns (parts, problems)."""
     import tempfile
     tmpd = tempfile.mkdtemp(prefix=f"vf-{prop}-", dir=os.environ.get("VF_TMP"))
     procs = []
     env = dict(os.environ)
-    env.setdefault("PYTHONHASHSEED", "0")
     env["PYTHONDONTWRITEBYTECODE"] = "1"
+    pinned = os.environ.get("VF_HASHSEED")
     for s in range(nshards):
+        # every shard under its OWN string-hash seed (set and dict-of-str iteration orders
+        # differ between them), a function of (seed, shard): what a set happens to yield first
+        # is part of the state space, and a violation is replayed under the seed it was seen with
+        env["PYTHONHASHSEED"] = pinned if pinned is not None else str(hashseed_for(seed, s))
         out = os.path.join(tmpd, f"{s}.json")
         cmd = [sys.executable, "-m", "vf.run", prop, tier, "--seed", str(seed),
                "--shard", f"{s}/{nshards}", "--out", out]
